@@ -39,6 +39,11 @@ Theorem C36_alias_result : forall am outer e,
   \/ (exists er, expand_aliases am outer e = Err er).
 Proof. exact expand_aliases_result. Qed.
 
+(** A reported recursion names an alias that really is in the map. *)
+Theorem C36_recursive_error_names_alias : forall am outer fuel st e id,
+  expand am outer fuel st e = Err (ErrRecursive id) -> In id (all_ids am).
+Proof. exact recursive_error_names_alias. Qed.
+
 (** The smallest cycle: A = A. *)
 Theorem C36_self_reference_is_an_error : forall am n,
   assoc n (am_symbols am) = Some (Some (EIdent n)) ->
